@@ -1059,4 +1059,110 @@ Section Univ.
       apply perm_filter, Permutation_map, Hip.
     - exact Heb.
   Qed.
+
+  (* ------------------------------------------------------------ the fixpoint test alloc_eqb *)
+  Definition psub (p q : pile) : bool :=
+    forallb (fun bw : ballot * Q => existsb (fun bw' : ballot * Q => ballot_eqb (fst bw) (fst bw') && Qeq_bool (snd bw) (snd bw')) q) p.
+  Definition asub (x y : alloc) : bool :=
+    forallb (fun kp : option C * pile => match alloc_get y (fst kp) with Some q => psub (snd kp) q && psub q (snd kp) | None => false end) x.
+  Lemma alloc_eqb_unfold a b : alloc_eqb a b = asub a b && asub b a.
+  Proof. reflexivity. Qed.
+
+  Lemma bool_iff (x y : bool) : (x = true <-> y = true) -> x = y.
+  Proof. destruct x, y; intuition congruence. Qed.
+
+  Definition PS (p q : pile) : Prop := forall b, In b U -> forall w, pget p b = Some w -> exists w', pget q b = Some w' /\ w == w'.
+
+  Lemma psub_spec p q : pwf p -> pwf q -> (psub p q = true <-> PS p q).
+  Proof.
+    intros Hp Hq. unfold psub. rewrite forallb_forall. split.
+    - intros H b Hb w Hg. apply (pget_in p b w Hb Hp) in Hg. specialize (H _ Hg). apply existsb_exists in H.
+      destruct H as ([b' w'] & Hin & Hc). simpl in Hc. apply andb_true_iff in Hc. destruct Hc as [E1 E2].
+      assert (Hb' : In b' U) by (apply (proj1 Hq); apply in_map_iff; exists (b', w'); auto).
+      apply beq_U in E1; [|assumption|assumption]. subst b'. exists w'. split; [apply (pget_in q b w' Hb Hq), Hin|apply Qeq_bool_iff, E2].
+    - intros H [b w] Hin. assert (Hb : In b U) by (apply (proj1 Hp); apply in_map_iff; exists (b, w); auto).
+      destruct (H b Hb w (proj2 (pget_in p b w Hb Hp) Hin)) as (w' & Hg & Hww). apply existsb_exists. exists (b, w').
+      split; [apply (pget_in q b w' Hb Hq), Hg|]. simpl. rewrite ballot_eqb_refl. apply Qeq_bool_iff, Hww.
+  Qed.
+
+  Lemma PS_resp p p1 q q1 : plook p p1 -> plook q q1 -> PS p q -> PS p1 q1.
+  Proof.
+    intros Hp Hq H b Hb w1 Hg. pose proof (Hp b Hb) as Ho. rewrite Hg in Ho. apply oeq_some_r in Ho. destruct Ho as (w & Hgw & Hww).
+    destruct (H b Hb w Hgw) as (w' & Hgq & Hw'). pose proof (Hq b Hb) as Ho. rewrite Hgq in Ho. apply oeq_some_l in Ho.
+    destruct Ho as (w1' & Hg1 & Hw1). exists w1'. split; [exact Hg1|]. rewrite <- Hww, Hw', Hw1. reflexivity.
+  Qed.
+
+  Lemma psub_resp p p1 q q1 : pwf p -> pwf p1 -> pwf q -> pwf q1 -> plook p p1 -> plook q q1 -> psub p q = psub p1 q1.
+  Proof.
+    intros. apply bool_iff. rewrite !psub_spec by assumption. split; apply PS_resp; try assumption; apply plook_sym; assumption.
+  Qed.
+
+  Definition AS (x y : alloc) : Prop :=
+    forall k p, alloc_get x k = Some p -> exists q, alloc_get y k = Some q /\ psub p q = true /\ psub q p = true.
+
+  Lemma asub_spec x y : NoDup (akeys x) -> (asub x y = true <-> AS x y).
+  Proof.
+    intros Hn. unfold asub. rewrite forallb_forall. split.
+    - intros H k p Hg. apply alloc_get_in in Hg. specialize (H _ Hg). simpl in H.
+      destruct (alloc_get y k) as [q|]; [|discriminate]. apply andb_true_iff in H. exists q. tauto.
+    - intros H [k p] Hin. simpl. destruct (H k p (in_alloc_get x k p Hn Hin)) as (q & Hg & H1 & H2). rewrite Hg, H1, H2. reflexivity.
+  Qed.
+
+  Lemma AS_resp x x1 y y1 : aeq x x1 -> aeq y y1 -> AS x y -> AS x1 y1.
+  Proof.
+    intros (Hx & Hx1 & Lx) (Hy & Hy1 & Ly) H k p1 Hg1. pose proof (Lx k) as L1. rewrite Hg1 in L1.
+    destruct (alloc_get x k) as [p|] eqn:Eg; simpl in L1; [|contradiction].
+    destruct (H k p Eg) as (q & Hgq & S1 & S2). pose proof (Ly k) as L2. rewrite Hgq in L2.
+    destruct (alloc_get y1 k) as [q1|] eqn:Eq1; simpl in L2; [|contradiction]. exists q1. split; [reflexivity|].
+    pose proof (alloc_get_wf x k p Hx Eg) as W1. pose proof (alloc_get_wf x1 k p1 Hx1 Hg1) as W2.
+    pose proof (alloc_get_wf y k q Hy Hgq) as W3. pose proof (alloc_get_wf y1 k q1 Hy1 Eq1) as W4.
+    rewrite <- (psub_resp p p1 q q1), <- (psub_resp q q1 p p1) by assumption. tauto.
+  Qed.
+
+  Lemma alloc_eqb_resp a a1 b b1 : aeq a a1 -> aeq b b1 -> alloc_eqb a b = alloc_eqb a1 b1.
+  Proof.
+    intros Ha Hb. rewrite !alloc_eqb_unfold.
+    assert (E1 : asub a b = asub a1 b1).
+    { apply bool_iff. rewrite !asub_spec by (try apply Ha; apply Ha). split; apply AS_resp; try assumption; apply aeq_sym; assumption. }
+    assert (E2 : asub b a = asub b1 a1).
+    { apply bool_iff. rewrite !asub_spec by (try apply Hb; apply Hb). split; apply AS_resp; try assumption; apply aeq_sym; assumption. }
+    rewrite E1, E2. reflexivity.
+  Qed.
+
+  (* ------------------------------------------------------------ the run *)
+  Definition cnt_rel (x y : list (option C * Q) * list (C * Z)) : Prop := Permutation (fst x) (fst y) /\ Permutation (snd x) (snd y).
+  Definition trace_rel (t t' : trace) : Prop :=
+    Forall2 cnt_rel (t_counts t) (t_counts t') /\ keysnd (t_seats t) /\ Permutation (t_seats t) (t_seats t') /\ t_stop t = t_stop t'.
+
+  Lemma Forall2_rev {A B} (R : A -> B -> Prop) l l' : Forall2 R l l' -> Forall2 R (rev l) (rev l').
+  Proof. induction 1; simpl; [constructor|]. apply Forall2_app; [assumption|constructor; [assumption|constructor]]. Qed.
+
+  Lemma add_seats_add_dict seats el : add_seats seats el = QuotaDistributor.add_dict seats el.
+  Proof. reflexivity. Qed.
+
+  Theorem run_perm cf n total caps : forall fuel a a' seats seats' acc acc',
+    aeq a a' -> keysnd seats -> Permutation seats seats' -> Forall2 cnt_rel acc acc' ->
+    trace_rel (run cf fuel a n total seats caps acc) (run cf fuel a' n total seats' caps acc').
+  Proof.
+    induction fuel as [|f IH]; intros a a' seats seats' acc acc' Ha Hsn Hsp Hacc.
+    - cbn [run]. rewrite <- (zsum_perm _ _ (Permutation_map snd Hsp)).
+      destruct (zsum (map snd seats) =? n)%Z; (split; [apply Forall2_rev, Hacc|]; split; [exact Hsn|]; split; [exact Hsp|reflexivity]).
+    - cbn [run]. rewrite <- (zsum_perm _ _ (Permutation_map snd Hsp)).
+      destruct (zsum (map snd seats) =? n)%Z; [split; [apply Forall2_rev, Hacc|]; split; [exact Hsn|]; split; [exact Hsp|reflexivity]|].
+      pose proof (next_count_perm cf a a' n total seats seats' caps Ha Hsn Hsp) as Hnc.
+      destruct (next_count cf a n total seats caps) as [el|a1 el|st], (next_count cf a' n total seats' caps) as [el'|a1' el'|st']; simpl in Hnc; try contradiction.
+      + destruct Hnc as [Hen Hep]. rewrite !add_seats_add_dict.
+        split; [cbn [t_counts]; apply Forall2_rev; constructor; [split; simpl; [constructor|exact Hep]|exact Hacc]|].
+        cbn [t_seats t_stop]. split; [apply add_dict_nodup, Hsn|]. split; [apply add_dict_perm; assumption|reflexivity].
+      + destruct Hnc as (Ha1 & Hen & Hep).
+        assert (Hacc1 : Forall2 cnt_rel ((totals a1, el) :: acc) ((totals a1', el') :: acc')).
+        { constructor; [split; simpl; [apply totals_perm, Ha1|exact Hep]|exact Hacc]. }
+        destruct el as [|x l].
+        * apply Permutation_nil in Hep. subst el'. rewrite <- (alloc_eqb_resp a1 a1' a a' Ha1 Ha).
+          destruct (alloc_eqb a1 a); [split; [apply Forall2_rev, Hacc|]; split; [exact Hsn|]; split; [exact Hsp|reflexivity]|].
+          apply IH; assumption.
+        * destruct el' as [|y l']; [apply Permutation_sym, Permutation_nil in Hep; discriminate|].
+          rewrite !add_seats_add_dict. apply IH; [exact Ha1|apply add_dict_nodup, Hsn|apply add_dict_perm; assumption|exact Hacc1].
+      + subst st'. split; [apply Forall2_rev, Hacc|]. split; [exact Hsn|]. split; [exact Hsp|reflexivity].
+  Qed.
 End Univ.
